@@ -25,16 +25,16 @@ theorem sumRat_eq (l : List Rat) : sumRat l = sumQ l := by
 
 /-- one element over a non-zero total: no exception; the total is kept, the accumulator grows by this column's share
 and is appended to the result (proved from the generated loop body by `simp`, up to commutativity of `+`) -/
-theorem loop1_ok (w : List Rat) (W : Rat) (x : Rat) (s : St) (h : s.total_width ≠ 0) :
-    ∃ s1, loop1 w W s x = .ok s1 ∧ s1.total_width = s.total_width ∧
-      s1.cumulative_sum = s.cumulative_sum + x * W / s.total_width ∧ s1.lc1 = s.lc1 ++ [s1.cumulative_sum] := by
-  have hd : ∀ a : Rat, pyDiv a s.total_width = .ok (a / s.total_width) := by intro a; simp [pyDiv, h]
+theorem loop1_ok (w : List Rat) (W : Rat) (x : Rat) (s : St) (h : s.v0 ≠ 0) :
+    ∃ s1, loop1 w W s x = .ok s1 ∧ s1.v0 = s.v0 ∧
+      s1.v1 = s.v1 + x * W / s.v0 ∧ s1.v2 = s.v2 ++ [s1.v1] := by
+  have hd : ∀ a : Rat, pyDiv a s.v0 = .ok (a / s.v0) := by intro a; simp [pyDiv, h]
   refine ⟨_, by simp only [loop1, hd, bind, Except.bind, pure, Except.pure]; rfl, ?_, ?_, ?_⟩ <;>
     simp [Rat.add_comm, Rat.mul_comm]
 
 /-- the comprehension over a non-zero total: no exception, the accumulator runs through `cumFrom` -/
-theorem loop_ok (w : List Rat) (W : Rat) (l : List Rat) (s : St) (h : s.total_width ≠ 0) :
-    ∃ s', l.foldlM (loop1 w W) s = .ok s' ∧ s'.lc1 = s.lc1 ++ cumFrom s.total_width W s.cumulative_sum l := by
+theorem loop_ok (w : List Rat) (W : Rat) (l : List Rat) (s : St) (h : s.v0 ≠ 0) :
+    ∃ s', l.foldlM (loop1 w W) s = .ok s' ∧ s'.v2 = s.v2 ++ cumFrom s.v0 W s.v1 l := by
   induction l generalizing s with
   | nil => exact ⟨s, rfl, by simp [cumFrom]⟩
   | cons x xs ih =>
@@ -46,7 +46,7 @@ theorem loop_ok (w : List Rat) (W : Rat) (l : List Rat) (s : St) (h : s.total_wi
     · rw [h2, hl, ht, hc]; simp [cumFrom]
 
 /-- a zero total: the first element already divides by zero -/
-theorem loop_zero (w : List Rat) (W : Rat) (x : Rat) (xs : List Rat) (s : St) (h : s.total_width = 0) :
+theorem loop_zero (w : List Rat) (W : Rat) (x : Rat) (xs : List Rat) (s : St) (h : s.v0 = 0) :
     (x :: xs).foldlM (loop1 w W) s = .error .ZeroDivisionError := by
   simp [List.foldlM_cons, loop1, pyDiv, h, bind, Except.bind]
 
@@ -59,10 +59,10 @@ theorem C08py_col_widths_translated (w : List Rat) (W : Rat) :
     | nil => simp [run, colWidths, cumFrom, bind, Except.bind, pure, Except.pure]
     | cons x xs =>
       have := loop_zero (x :: xs) W x xs
-        { total_width := sumRat (x :: xs), cumulative_sum := 0, lc1 := [] } (by simp [sumRat_eq, hz])
+        { v0 := sumRat (x :: xs), v1 := 0, v2 := [] } (by simp [sumRat_eq, hz])
       simp only [run, this, bind, Except.bind]
       simp [hz]
-  · obtain ⟨s', h1, h2⟩ := loop_ok w W w { total_width := sumRat w, cumulative_sum := 0, lc1 := [] }
+  · obtain ⟨s', h1, h2⟩ := loop_ok w W w { v0 := sumRat w, v1 := 0, v2 := [] }
       (by simp [sumRat_eq, hz])
     simp only [run, h1, bind, Except.bind, pure, Except.pure]
     simp [hz, h2, colWidths, sumRat_eq]
